@@ -101,7 +101,7 @@ def match_finding(info, sc, findings):
 def run_index(prop, tier, seed, i):
     chk = registry()[prop]
     rs = H(seed, prop, tier, i)
-    sc = chk.generate(random.Random(H(rs, "config")), rs, tier)
+    sc = chk.generate_indexed(i, random.Random(H(rs, "config")), rs, tier)
     res = chk.run(sc)
     return sc, res
 
@@ -132,8 +132,8 @@ def _chunk(args):
         if chk.nontrivial(sc, res):
             out["keys"].add(key)
             out["nontrivial"] += 1
-        out["by_algo"][engine.algo_label(sc) if "algo" in sc else sc.get("kind", "?")] += 1
-        if i % 97 == 0 or i < 64:
+        out["by_algo"][engine.algo_label(sc) if "algo" in sc else engine.algo_label(sc["A"])] += 1
+        if i % 97 == 0 or i < 64 or (chk.record_all_digests and i < chk.record_all_digests):
             out["digests"][i] = res.digest
         if len(out["samples"]) < 2 and res.violation is None:
             out["samples"].append({"run_index": i, "scenario": sc, "rounds": res.rounds, "cells": res.cells, "digest": res.digest})
@@ -324,6 +324,14 @@ def run_check(prop, tier, seed, workers=None, n_override=None, budget_s=None):
                 print("HARNESS-NONDETERMINISM property=%s run=%d (fresh interpreter, PYTHONHASHSEED=%s differs)" % (prop, i, det["hashseed"]))
                 return 2
 
+    # ---- property-specific batch phase (e.g. C14: fresh interpreters under other hash seeds)
+    try:
+        extra = chk.post_batch(tier, seed, agg)
+    except engine.HarnessError as e:
+        print("HARNESS-ERROR %s" % e)
+        return 2
+    agg["violations"].extend(extra)
+
     # ---- violations: group by signature, separate known findings
     by_sig = collections.OrderedDict()
     for v in sorted(agg["violations"], key=lambda v: v["i"]):
@@ -350,7 +358,7 @@ def run_check(prop, tier, seed, workers=None, n_override=None, budget_s=None):
             note = "unminimised (concretised form did not reproduce: harness defect)"
         else:
             path = write_replay(prop, mini, mres.violation, mres.digest, "min")
-            note = "minimised to %d rounds" % mini.get("rounds", -1)
+            note = "minimised to %d rounds" % (mini.get("A") or mini).get("rounds", -1)
             if not os.environ.get("VERIF_NO_FRESH"):
                 fr = replay_in_fresh_interpreter(path)
                 if fr.get("signature") != mres.violation["signature"] or fr.get("digest") != mres.digest:
